@@ -5,7 +5,7 @@ COMMON_NOTE = ('Trusted: Coq 8.16.1 kernel (vm_compute used, native_compute not)
                '(scripted origin, recording Conn, testing/synctest virtual clock). net/http, net/url, encoding/json, strconv are modelled, not verified.')
 CLAIMS = {
     'C18': dict(
-        text=('Theorem C18_no_origin: for every plain GET carrying only-if-cached the effect tree of RoundTrip has no origin call '
+        text=('Theorem C18_no_origin: for every request carrying only-if-cached — a plain GET or a request the cache never answers from its store (another method, a Range request; fix F35) — the effect tree of RoundTrip has no origin call '
               'on any path, for every store answer and clock reading (structural, unbounded); C18_answer: every leaf is a response; C18_history: along EVERY sequential history such an exchange logs no origin call in the foreground or in background work and returns the 504 or the served form of a stored entry with a known source (Src) that does not need validation by the specification. '
               'Each run re-checks the proofs, runs generated histories on the real transport and on the extracted model, and '
               'evaluates the extracted monitor mon_C18 (no origin call in foreground or background; answer is a usable stored '
